@@ -118,6 +118,30 @@ func c14(c *Ctx) {
 				}
 			}
 		}
+		// the same tests or-combined into a local boolean
+		var autoVals []ssa.Value
+		for _, b := range rec.Blocks {
+			for _, in := range b.Instrs {
+				if bo, ok := in.(*ssa.BinOp); ok && bo.Op == token.EQL {
+					isAuto := false
+					if cfgx.IsNilConst(bo.Y) && hasSuffixCall(bo.X, ".GetActivationPolicy") {
+						isAuto = true
+					}
+					if s, ok := cfgx.ConstString(bo.Y); ok && s == "Automatic" {
+						isAuto = true
+					}
+					if ld, ok := bo.Y.(*ssa.UnOp); ok && ld.Op == token.MUL {
+						if g, ok := ld.X.(*ssa.Global); ok && g.Name() == "AutomaticActivation" {
+							isAuto = true
+						}
+					}
+					if isAuto {
+						autoVals = append(autoVals, bo)
+					}
+				}
+			}
+		}
+		auto = append(auto, boolDisjTrueEdges(rec, autoVals)...)
 		n := 0
 		for _, x := range cfgx.Calls(rec, nil) {
 			if strings.HasSuffix(cfgx.CalleeName(x), ".SetDesiredState") {
